@@ -50,6 +50,9 @@ ASSUMPTIONS = [
     'clock and ttl values on the 2^-10 grid; a lookup never happens exactly at an expiry time',
     'Deque/Index are always opened with eviction_policy none (persistent.py passes it on every open)',
     'POSIX',
+    'settings histories: resets complete one after another (no two writers of one setting at the same time); a handle that does not reload keeps '
+    'the value it loaded (documented: settings attributes are loaded lazily, reset(key) refreshes them), so only handles that (re)load are compared; '
+    'size_limit of a FanoutCache is excluded there (finding C18-F1 rewrites it on every open)',
     'suspended iterators: writers run one after another (no lock is held when the handle with the suspended iterator reads or writes), so a '
     'Timeout or a missing item there cannot be excused by contention; a write that makes no progress for 3 s is reported as blocked',
 ]
@@ -1083,6 +1086,347 @@ def suspended_iterators(ctx, res, thorough):
     res.extra['suspended_iterator_scenarios'] = n_run
 
 
+# ---------------------------------------------------------------------------
+# settings changed after creation, seen through several handles: the value stored by the last completed
+# reset(key, value) -- whoever made it -- is what every handle sees that loads settings afterwards
+
+
+SH_DOMAIN = {
+    'statistics': [0, 1], 'tag_index': [0, 1], 'cull_limit': [0, 5, 10, 50], 'size_limit': [1000, 2 ** 20, 2 ** 30],
+    'eviction_policy': ['none', 'least-recently-stored', 'least-recently-used'], 'disk_min_file_size': [0, 64, 2 ** 15],
+    'disk_pickle_protocol': [0, 2, 4], 'sqlite_cache_size': [2 ** 10, 2 ** 13], 'sqlite_synchronous': [1, 2],
+}
+SH_EVENTS = ['reopen', 'close', 'pickle', 'copy', 'fresh', 'fresh', 'process_read', 'fork_read']
+
+
+def sh_keys(kind):
+    # FanoutCache writes size_limit on every open (finding C18-F1): that key is left to the histories above
+    return sorted(k for k in SH_DOMAIN if not (kind == 'fanout' and k == 'size_limit'))
+
+
+class SettingsRef:
+    """stored: what the last completed reset(key, value) / creation left for everybody; mem[h]: what handle h holds
+    (loaded when it was opened / unpickled / copied, refreshed per key by reset(key), overwritten by its own reset(key, value))."""
+
+    def __init__(self, kind, init, nh):
+        self.stored = default_settings()
+        self.stored.update(init)
+        self.mem = [dict(self.stored) for _ in range(nh)]
+
+    def reset(self, h, key, value):
+        self.stored[key] = value
+        if h is not None:
+            self.mem[h][key] = value
+
+    def reload(self, h, key):
+        self.mem[h][key] = self.stored[key]
+
+    def load(self, h):
+        self.mem[h] = dict(self.stored)
+
+
+def gen_settings_history(rng, kind, nsteps):
+    keys = sh_keys(kind)
+    init = {k: rng.choice(SH_DOMAIN[k]) for k in rng.sample(keys, rng.randrange(0, 4))}
+    nh = rng.choice([2, 2, 3])
+    ref = SettingsRef(kind, init, nh)
+    steps = []
+    for _ in range(nsteps):
+        h = rng.randrange(nh)
+        x = rng.random()
+        if x < 0.45:
+            key = rng.choice(keys)
+            # a third of the resets put back the value this handle holds (e.g. undoing what another client changed meanwhile)
+            value = ref.mem[h][key] if (rng.random() < 0.35 and ref.mem[h][key] in SH_DOMAIN[key]) else rng.choice(SH_DOMAIN[key])
+            how = rng.choice(['reset', 'reset', 'reset', 'thread_reset', 'fork_reset', 'process_reset'])
+            if key == 'statistics' and how == 'reset' and rng.random() < 0.5:
+                steps.append(['stats', h, value])
+            else:
+                steps.append([how, h, key, value])
+            ref.reset(None if how in ('process_reset', 'fork_reset') else h, key, value)
+        elif x < 0.6:
+            key = rng.choice(keys)
+            steps.append(['reload', h, key])
+            ref.reload(h, key)
+        else:
+            ev = rng.choice(SH_EVENTS)
+            steps.append([ev, h])
+            if ev in ('reopen', 'pickle', 'copy'):
+                ref.load(h)
+    return {'check': 'settings_history', 'kind': kind, 'shards': rng.choice([1, 2, 3]) if kind == 'fanout' else 1,
+            'init': init, 'handles': nh, 'steps': steps}
+
+
+def sh_open(kind, d, shards, settings=None):
+    kw = dict(settings or {})
+    if kind == 'fanout':
+        return diskcache.FanoutCache(d, shards=shards, timeout=5, **kw)
+    return diskcache.Cache(d, **kw)
+
+
+def sh_seen(kind, h, d=None, shards=1):
+    out = {k: getattr(h, k) for k in sh_keys(kind)}
+    return out
+
+
+def sh_shards_seen(kind, d, shards):
+    """the settings of every shard directory, each opened as the Cache it is"""
+    per = []
+    for i in range(shards):
+        c = diskcache.Cache(os.path.join(d, '%03d' % i))
+        try:
+            per.append({k: getattr(c, k) for k in sh_keys(kind)})
+        finally:
+            c.close()
+    return per
+
+
+def setworker_main():
+    """persistent separate process: one JSON request per line {kind, dir, shards, op: read|reset, key, value} -> {settings} / {error}"""
+    for line in sys.stdin:
+        line = line.strip()
+        if not line:
+            continue
+        try:
+            req = json.loads(line)
+            h = sh_open(req['kind'], req['dir'], req['shards'])
+            try:
+                if req['op'] == 'reset':
+                    h.reset(req['key'], req['value'])
+                out = {'settings': sh_seen(req['kind'], h)}
+            finally:
+                h.close()
+        except Exception as e:  # noqa
+            out = {'error': repr(e)}
+        sys.stdout.write(json.dumps(out) + '\n')
+        sys.stdout.flush()
+
+
+class SetWorker:
+    def __init__(self):
+        env = dict(os.environ)
+        env['VERIF_REPO'] = fw.REPO
+        env['PYTHONPATH'] = os.pathsep.join([fw.REPO, HARNESS])
+        env['PYTHONHASHSEED'] = '0'
+        env['PYTHONDONTWRITEBYTECODE'] = '1'
+        self.p = subprocess.Popen([fw.PY, os.path.abspath(__file__), 'setworker'], stdin=subprocess.PIPE, stdout=subprocess.PIPE,
+                                  text=True, env=env, bufsize=1)
+
+    def ask(self, req):
+        self.p.stdin.write(json.dumps(req) + '\n')
+        self.p.stdin.flush()
+        line = self.p.stdout.readline()
+        if not line:
+            return {'error': 'settings worker process died (exit %r)' % self.p.poll()}
+        return json.loads(line)
+
+    def close(self):
+        try:
+            self.p.stdin.close()
+            self.p.wait(10)
+        except Exception:
+            self.p.kill()
+
+
+def sh_fork(f):
+    """run f() in a forked child, return its JSON-able result"""
+    r, w = os.pipe()
+    pid = os.fork()
+    if pid == 0:
+        code = 1
+        try:
+            os.close(r)
+            os.write(w, json.dumps(f()).encode())
+            os.close(w)
+            code = 0
+        finally:
+            os._exit(code)
+    os.close(w)
+    data = b''
+    while True:
+        chunk = os.read(r, 65536)
+        if not chunk:
+            break
+        data += chunk
+    os.close(r)
+    _, status = os.waitpid(pid, 0)
+    if status != 0 or not data:
+        return {'error': 'forked child failed (status %r)' % status}
+    return json.loads(data.decode())
+
+
+def sh_same(got, want):
+    return type(got) in (int, float, str, bool) and got == want
+
+
+def run_settings_history(scratch, case, worker):
+    """-> [(sig, description)]"""
+    kind, shards, nh = case['kind'], case.get('shards', 1), case['handles']
+    d = os.path.join(scratch, 'sh')
+    found = []
+    ref = SettingsRef(kind, case['init'], nh)
+    keys = sh_keys(kind)
+    hs = [sh_open(kind, d, shards, case['init'])]
+    hs += [sh_open(kind, d, shards) for _ in range(nh - 1)]
+
+    def compare(event, where, seen, who):
+        diff = [k for k in keys if not sh_same(seen.get(k), ref.stored[k])]
+        if diff:
+            found.append(('settings_shared:%s' % event, '%s: %s shows %r; the values stored last (creation / the last completed reset) are %r' % (
+                where, who, {k: seen.get(k) for k in diff}, {k: ref.stored[k] for k in diff})))
+        return bool(diff)
+    try:
+        for si, step in enumerate(case['steps']):
+            where = 'step %d %r' % (si, step)
+            name, h = step[0], step[1]
+            c = hs[h]
+            try:
+                if name in ('reset', 'thread_reset', 'stats', 'fork_reset', 'process_reset'):
+                    key, value = ('statistics', step[2]) if name == 'stats' else (step[2], step[3])
+                    ret = value
+                    if name == 'reset':
+                        ret = c.reset(key, value)
+                    elif name == 'stats':
+                        c.stats(enable=bool(value))
+                    elif name == 'thread_reset':
+                        box = {}
+
+                        def job():
+                            try:
+                                box['r'] = c.reset(key, value)
+                            except Exception as e:  # noqa
+                                box['e'] = repr(e)
+                        t = threading.Thread(target=job)
+                        t.start()
+                        t.join(60)
+                        if 'e' in box:
+                            raise RuntimeError('reset in another thread raised ' + box['e'])
+                        ret = box.get('r')
+                    elif name == 'fork_reset':
+                        out = sh_fork(lambda: {'ret': c.reset(key, value)})
+                        if 'error' in out:
+                            raise RuntimeError(out['error'])
+                        ret = out['ret']
+                    else:
+                        out = worker.ask({'kind': kind, 'dir': d, 'shards': shards, 'op': 'reset', 'key': key, 'value': value})
+                        if 'error' in out:
+                            raise RuntimeError('reset in another process: ' + out['error'])
+                    ref.reset(None if name in ('fork_reset', 'process_reset') else h, key, value)
+                    if name in ('reset', 'thread_reset', 'stats'):
+                        got = getattr(c, key)
+                        if not (sh_same(got, value) and (name == 'stats' or sh_same(ret, value))):
+                            found.append(('settings_shared:reset', '%s: reset returned %r and the handle then shows %s = %r' % (where, ret, key, got)))
+                            break
+                elif name == 'reload':
+                    key = step[2]
+                    ret = c.reset(key)
+                    ref.reload(h, key)
+                    got = getattr(c, key)
+                    if not (sh_same(ret, ref.stored[key]) and sh_same(got, ref.stored[key])):
+                        found.append(('settings_shared:reload', '%s: reset(%r) returned %r and the handle then shows %r; the value stored last is %r' % (
+                            where, key, ret, got, ref.stored[key])))
+                        break
+                elif name == 'close':
+                    c.close()
+                elif name in ('reopen', 'pickle', 'copy'):
+                    if name == 'reopen':
+                        c.close()
+                        c2 = sh_open(kind, d, shards)
+                    else:
+                        c2 = pickle.loads(pickle.dumps(c)) if name == 'pickle' else copy.copy(c)
+                        c.close()
+                    hs[h] = c2
+                    ref.load(h)
+                    if compare(name, where, sh_seen(kind, c2), 'the handle obtained by %s' % name):
+                        break
+                elif name == 'fresh':
+                    c2 = sh_open(kind, d, shards)
+                    try:
+                        seen = sh_seen(kind, c2)
+                    finally:
+                        c2.close()
+                    if compare('fresh', where, seen, 'a freshly opened handle'):
+                        break
+                    if kind == 'fanout':
+                        per = sh_shards_seen(kind, d, shards)
+                        if any(compare('fresh', where, p_, 'shard %03d opened on its own' % i) for i, p_ in enumerate(per)):
+                            break
+                elif name == 'process_read':
+                    out = worker.ask({'kind': kind, 'dir': d, 'shards': shards, 'op': 'read'})
+                    if 'error' in out:
+                        raise RuntimeError('another process: ' + out['error'])
+                    if compare('process', where, out['settings'], 'a handle opened in another process'):
+                        break
+                elif name == 'fork_read':
+                    def child():
+                        c2 = sh_open(kind, d, shards)
+                        try:
+                            return {'settings': sh_seen(kind, c2)}
+                        finally:
+                            c2.close()
+                    out = sh_fork(child)
+                    if 'error' in out:
+                        raise RuntimeError(out['error'])
+                    if compare('fork', where, out['settings'], 'a handle opened in a forked child'):
+                        break
+            except Exception as e:  # noqa
+                import traceback
+                found.append(('settings_shared:raised:%s' % type(e).__name__, '%s raised %s' % (where, traceback.format_exc()[-400:])))
+                break
+        else:
+            c2 = sh_open(kind, d, shards)
+            try:
+                compare('final', 'at the end', sh_seen(kind, c2), 'a freshly opened handle')
+            finally:
+                c2.close()
+    finally:
+        for c in hs:
+            try:
+                c.close()
+            except Exception:  # noqa
+                pass
+        shutil.rmtree(d, ignore_errors=True)
+    return found
+
+
+def sh_shrink(ctx, case, sig, desc, worker):
+    """drop steps while a violation with the same signature remains"""
+    steps = list(case['steps'])
+    i = len(steps) - 1
+    while i >= 0:
+        trial = dict(case, steps=steps[:i] + steps[i + 1:])
+        hit = [d_ for s_, d_ in run_settings_history(ctx.scratch('c18sh'), trial, worker) if s_ == sig]
+        if hit:
+            steps, desc = trial['steps'], hit[0]
+        i -= 1
+    return dict(case, steps=steps), desc
+
+
+def settings_histories(ctx, res, n_hist, n_steps):
+    worker = SetWorker()
+    ev_hist = {}
+    seen_sigs = {}
+    try:
+        for hi in range(n_hist):
+            kind = ['cache', 'fanout'][hi % 2]
+            case = gen_settings_history(ctx.rng, kind, n_steps)
+            for s_ in case['steps']:
+                ev_hist[s_[0]] = ev_hist.get(s_[0], 0) + 1
+            found = run_settings_history(ctx.scratch('c18sh'), case, worker)
+            res.count(['settings_history', kind, case['shards'], sorted(case['init'].items()), case['handles'], case['steps']], nontrivial=True)
+            for sig, desc in found:
+                seen_sigs[sig] = seen_sigs.get(sig, 0) + 1
+                if seen_sigs[sig] <= 2:
+                    small, sdesc = sh_shrink(ctx, case, sig, desc, worker)
+                    res.violations.append(fw.Violation(sig, sdesc, small))
+            if hi == 0:
+                res.sample({'settings_history': {k: case[k] for k in ('kind', 'shards', 'init', 'handles')}, 'steps': case['steps'][:12]})
+    finally:
+        worker.close()
+    res.extra['settings_history_steps'] = ev_hist
+    res.extra['settings_histories'] = n_hist
+
+
 def witness_d17():
     d = tempfile.mkdtemp(prefix='c18wit-')
     try:
@@ -1116,7 +1460,13 @@ def run(ctx, big=False, model=True):
                 'values, items) and Deque (iter, reversed) a key iterator of handle A is left suspended after 1 / n-1 / 101 of 130 keys (second page); then '
                 'another handle, another thread (own handle and A itself), a separate process and a forked child each commit inline, pickled and '
                 'file-backed items, in rotating order; after each commit A must show them at once (get, in, [], len, a second complete iteration), '
-                "A's own write must succeed and be seen by the other handle, and the iterator must resume.")
+                "A's own write must succeed and be seen by the other handle, and the iterator must resume.  "
+                'Settings histories: 2-3 handles on one Cache / FanoutCache(1-3 shards) directory created with random settings; 16 steps of '
+                'reset(key, value) (through the handle, in another thread, in a forked child, in another process; a third of them put back the value '
+                'the handle still holds), stats(enable), reset(key), close, reopen, pickle, copy, fresh handle, read in another process / forked child over '
+                'statistics, tag_index, cull_limit, size_limit (Cache), eviction_policy, disk_min_file_size, disk_pickle_protocol, sqlite_cache_size, '
+                'sqlite_synchronous; every handle that loads settings afterwards (reopened, unpickled, copied, fresh, other process, forked child, every '
+                'shard directory opened on its own) and every reset(key) must show the value of the last completed reset(key, value).')
     golden(ctx, res)
     histories(ctx, res, 200 if thorough else 45, 70 if thorough else 40)
     merge_cases(ctx, res, 120 if thorough else 30, model=model and not ctx.search_mode)
@@ -1130,6 +1480,9 @@ def run(ctx, big=False, model=True):
     t0 = _t.time()
     suspended_iterators(ctx, res, thorough and not ctx.quick)
     res.extra['suspended_iterator_s'] = round(_t.time() - t0, 1)
+    t0 = _t.time()
+    settings_histories(ctx, res, 400 if thorough else 70, 16)
+    res.extra['settings_histories_s'] = round(_t.time() - t0, 1)
     res.witnessed['fanout_size_limit_reset'] = witness_d17()
     return res
 
@@ -1151,6 +1504,15 @@ def replay(payload):
             worker = IterWorker()
             try:
                 found = suspended_iterator_case(d, case, worker)
+            finally:
+                worker.close()
+            for sig, desc in found:
+                print('%s: %s' % (sig, desc))
+            return not found
+        if case.get('check') == 'settings_history':
+            worker = SetWorker()
+            try:
+                found = run_settings_history(d, case, worker)
             finally:
                 worker.close()
             for sig, desc in found:
@@ -1186,3 +1548,5 @@ if __name__ == '__main__' and len(sys.argv) > 1 and sys.argv[1] == 'worker':
     worker_main()
 if __name__ == '__main__' and len(sys.argv) > 1 and sys.argv[1] == 'iterworker':
     iterworker_main()
+if __name__ == '__main__' and len(sys.argv) > 1 and sys.argv[1] == 'setworker':
+    setworker_main()
